@@ -39,6 +39,7 @@ class RefTarget:
         cfg = dict(cfg or {})
         self.cfg = cfg
         self.identity = dict(DEFAULT_IDENTITY, **cfg.get("identity", {}))
+        self.bridge_identity = dict(DEFAULT_IDENTITY, **cfg["bridge_identity"]) if cfg.get("bridge_identity") else None
         self.session_handle = cfg.get("session_handle", 0x11223344)
         self.conn_ids = list(cfg.get("conn_ids", [0x00BEEF01, 0x00BEEF02, 0x00BEEF03, 0x00BEEF04]))
         self.fo_policy = cfg.get("fo_policy", "large")       # large | std | none
@@ -126,7 +127,8 @@ class RefTarget:
             if body:
                 self.audit("C11", "listidentity.body", body.hex())
             self._check_session(cmd, session)
-            item = encode_list_identity_item(self.identity)
+            # ListIdentity is answered by whatever owns the Ethernet port: the controller itself, or a bridge module in front of it
+            item = encode_list_identity_item(self.bridge_identity or self.identity)
             data = struct.pack("<HHH", 1, 0x0C, len(item)) + item
             return self.enc_header(cmd, len(data), session, 0, ctx) + data
 
@@ -501,7 +503,8 @@ class RefPLC(RefTarget):
             if cls == 0x02 and inst == 1 and service == 0x0A:
                 return self.multi_service(data, transport, conn, entry)
             if cls == 0x01 and inst == 1 and service == 0x01:
-                return 0, [], encode_identity(self.identity)
+                # an unrouted (UCMM) request stops at the bridge, a routed or connected one reaches the controller
+                return 0, [], encode_identity(self.bridge_identity if (self.bridge_identity and transport == "ucmm") else self.identity)
             if cls == 0x64 and inst == 1 and service == 0x01 and not self.micro800:
                 nm = self.plc_name.encode("latin-1")
                 return 0, [], struct.pack("<H", len(nm)) + nm
